@@ -7,12 +7,17 @@ pub mod builder;
 pub mod envelope;
 pub mod pure_ordinals;
 pub mod runestone;
+pub mod sats;
 pub mod settings;
 pub mod storage;
 pub mod text;
 
 pub fn dispatch(id: &str) -> Option<fn(&mut Session) -> Meta> {
   Some(match id {
+    "C01" => sats::c01,
+    "C02" => sats::c02,
+    "C12" => sats::c12,
+    "C17" => sats::c17,
     "C20" => builder::c20,
     "C25" => runestone::c25,
     "C26" => pure_ordinals::c26,
